@@ -84,6 +84,9 @@ func writeEvidence(cfg RunConfig, p Prop, st *Stats, seeds []uint64, done, plann
 		"violations":  violations,
 	}
 	dir := filepath.Join(cfg.VerifDir, "evidence")
+	if d := os.Getenv("VERIF_EVIDENCE_DIR"); d != "" {
+		dir = d // mutation drills must not overwrite the evidence of the real tree
+	}
 	if err := os.MkdirAll(dir, 0o755); err != nil {
 		return err
 	}
